@@ -150,8 +150,10 @@ def simple_eflr(set_type, template, objects, set_name=None):
 
 
 def file_header(seq=1, fid=b'VERIF FILE'):
+    # the FILE-HEADER set may carry a set name (RP66V1 writers number it by sequence: "1", "2", ...): even-numbered ones do here
+    set_name = None if seq % 2 == 1 else (b'%d' % seq if seq % 4 == 0 else b'FH')
     return simple_eflr(b'FILE-HEADER', [(b'SEQUENCE-NUMBER', 20, None, None), (b'ID', 20, None, None)],
-                       [((0, 0, b'0'), [[('%10d' % seq).encode()], [fid.ljust(65)]])])
+                       [((0, 0, b'0'), [[('%10d' % seq).encode()], [fid.ljust(65)]])], set_name=set_name)
 
 
 def origin(file_id=b'VERIF', well=b'WELL-1', extra=None):
